@@ -400,14 +400,45 @@ func (ft *FT) newRef(st *State, prefix string, reach string) string {
 }
 
 func (ft *FT) assumeAllocated(st *State, reach string, t Term) {
+	ft.assumeAllocatedIn(st, reach, t, "")
+}
+
+// assumeAllocatedIn: a reference read from heap `heap` is allocated. A value
+// read from a heap that still is the entry heap of the function under
+// verification was allocated when the function was entered (the entry state
+// is well formed: it holds no dangling references); otherwise it is allocated
+// now.
+func (ft *FT) assumeAllocatedIn(st *State, reach string, t Term, heap string) {
+	alloc := ""
+	if heap != "" {
+		if raw := ft.rawHeap(st, heap); strings.HasPrefix(raw, "\x00I") || raw == sanitize(heap)+"@0" {
+			alloc = ft.initialHeap(allocHeap)
+		}
+	}
+	if alloc == "" {
+		alloc = ft.heapTerm(st, allocHeap)
+	}
 	switch t.Sort {
 	case SRef:
-		ft.assume(reach, or(eq(t.S, "null"), sel(ft.heapTerm(st, allocHeap), t.S)))
+		ft.assume(reach, or(eq(t.S, "null"), sel(alloc, t.S)))
 	case SSlice:
 		b := sx("sbase", t.S)
 		ft.assume(reach, and(
-			or(eq(b, "null"), sel(ft.heapTerm(st, allocHeap), b)),
+			or(eq(b, "null"), sel(alloc, b)),
 			sx("<=", "0", sx("soff", t.S)), sx("<=", "0", sx("slen", t.S)), sx("<=", sx("slen", t.S), sx("scap", t.S)),
 			implies(eq(b, "null"), eq(t.S, "nilslice"))))
+	}
+}
+
+// assumeAllocatedAtEntry: t was read from an entry heap, so it was allocated
+// when the function under verification was entered.
+func (ft *FT) assumeAllocatedAtEntry(reach string, t Term) {
+	alloc := ft.initialHeap(allocHeap)
+	switch t.Sort {
+	case SRef:
+		ft.assume(reach, or(eq(t.S, "null"), sel(alloc, t.S)))
+	case SSlice:
+		b := sx("sbase", t.S)
+		ft.assume(reach, or(eq(b, "null"), sel(alloc, b)))
 	}
 }
